@@ -190,7 +190,10 @@ def proof_step(pid, thorough=False):
             disc += 1
     res["discharged"] = disc
     if thorough:
-        r = subprocess.run(["coqchk", "-silent", "-o", "-Q", "theories", "Ructe", "Ructe.Props." + pid], cwd=COQ, capture_output=True, timeout=3000)
+        # under the build lock: another check of the same property (quick next to thorough) deletes and recompiles Props/<pid>.vo
+        with Lock():
+            if not os.path.exists(vfile[:-2] + ".vo"): coq_make(["theories/Props/%s.vo" % pid])
+            r = subprocess.run(["coqchk", "-silent", "-o", "-Q", "theories", "Ructe", "Ructe.Props." + pid], cwd=COQ, capture_output=True, timeout=3000)
         txt = (r.stdout + r.stderr).decode("utf8", "replace")
         res["coqchk"] = txt[-1500:]
         if r.returncode != 0:
@@ -205,7 +208,11 @@ def proof_step(pid, thorough=False):
 def hexs(b):
     return b.hex() if b else "-"
 def unhexs(s):
-    return b"" if s == "-" else bytes.fromhex(s)
+    if s == "-": return b""
+    try: return bytes.fromhex(s)
+    except ValueError:
+        # a harness field that should be hex but is an error text: kept recognisable, so that the caller's comparison fails instead of the check crashing
+        return b"<not hex: " + s[:80].encode("utf8", "replace") + b">"
 
 def _big_stack():
     # the extracted model recurses over lists (app, map are not tail recursive): give the children the largest stack allowed
